@@ -44,7 +44,7 @@ let () = iter_lines (fun line ->
           (match derive_config gen_scale_chain gen_DCTSIZE (zi w) (zi h) zcomps m (zi 8) (not fu) ycc3 (ycc3 && not grayout) grayout with
            | Some k ->
              (match crop_scanline k.k_ow (crop_align (nc = 1) k.k_M k.k_hmax) x1 w1 with
-              | CropOk (_, w', _, _) -> if crop_reinit_hazard gen_DCTSIZE (zi w) zcomps k w' then 5 else 0
+              | CropOk (_, w', _, _) -> if crop_reinit_hazard gen_DCTSIZE (zi w) zcomps k w' && not gen_crop_merged_guard then 5 else 0
               | _ -> 0)
            | None -> 0)
         | _ -> 0 in
@@ -77,7 +77,7 @@ let () = iter_lines (fun line ->
           | CropErr -> ok := false
           | CropWhole -> Buffer.add_string b (Printf.sprintf " | crop %d %d ow=%d win" cx cw cw)
           | CropOk (x', w', fi, li) ->
-            haz5 := crop_reinit_hazard gen_DCTSIZE (zi w) zcomps k w';
+            haz5 := crop_reinit_hazard gen_DCTSIZE (zi w) zcomps k w' && not gen_crop_merged_guard;
             Buffer.add_string b (Printf.sprintf " | crop %d %d ow=%d win %d %d" (iz x') (iz w') (iz w') (iz fi) (iz li));
             List.iter (fun (hs, _) ->
                 let (f, l) = comp_window align x' w' (if single then zi 1 else hs) in
